@@ -309,6 +309,35 @@ Proof.
   intros s c k W Hin Hc. destruct (wf_alloc s W c k Hin) as [[_ Ho]|[Ha _]]; [congruence|exact Ha].
 Qed.
 
+(* no spurious wake-up: a step closes a channel only by adding the key the channel was made for *)
+Lemma change_closes : forall s s' c, wf s -> change s s' ->
+  cmem c (closed s) = false -> cmem c (closed s') = true ->
+  exists k, In (c, k) (alloc s) /\ ~ added k s /\ added k s'.
+Proof.
+  intros s s' c W C Ho Hc; destruct C as [|k0 v0 _|k0 v0 c0 Hw|k0 _]; cbn [st_put st_fill st_wait closed] in Hc; try congruence.
+  rewrite cmem_cons, Ho, orb_false_r in Hc. apply N.eqb_eq in Hc. subst c0.
+  exists k0. split; [now apply (wf_wait s W)|]. split.
+  - intros [v Hv]. congruence.
+  - exists v0. cbn [st_fill tbl]. apply afind_aset_eq.
+Qed.
+
+(* a value, once added, is only changed by an overwriting Set of that key *)
+Lemma prim_value_stable : forall p s k v, afind k (tbl s) = Some (Val v) ->
+  afind k (tbl (fst (sec_prim p s))) = Some (Val v) \/ exists v', p = PSet k v' true.
+Proof.
+  intros [k0 v0 ow|k0 v0|k0|k0|i] s k v Hk; cbn [C15.sec_prim].
+  - unfold sec_set. destruct (N.eq_dec k k0) as [E|E].
+    + subst k0. rewrite Hk. destruct ow; cbn [negb fst]; [right; now exists v0|now left].
+    + left. destruct (afind k0 (tbl s)) as [[v1|c]|]; [destruct ow|..]; cbn [negb fst tbl]; auto; now rewrite afind_aset_neq.
+  - unfold sec_lazyset. left. destruct (N.eq_dec k k0) as [E|E].
+    + subst k0. rewrite Hk. exact Hk.
+    + destruct (afind k0 (tbl s)) as [[v1|c]|]; cbn [fst tbl]; auto; now rewrite afind_aset_neq.
+  - left. unfold sec_get_fast, sec_get_slow. destruct (afind k0 (tbl s)) as [e|] eqn:E0; cbn [fst tbl]; [exact Hk|].
+    destruct (N.eq_dec k k0) as [E|E]; [subst; congruence|now rewrite afind_aset_neq].
+  - now left.
+  - now left.
+Qed.
+
 (* ---------- the abstraction relation and the forward simulation ---------- *)
 Record R (s : state) (sp : sstate) : Prop := mkR {
   R_map : forall k, afind k (smap sp) = match afind k (tbl s) with Some (Val v) => Some v | _ => None end;
